@@ -70,6 +70,13 @@ inductive LexErr where
   | surrogate (pos : Nat)
 deriving DecidableEq, Repr, Inhabited
 
+instance {ε α} [DecidableEq ε] [DecidableEq α] : DecidableEq (Except ε α) := fun a b =>
+  match a, b with
+  | .ok x, .ok y => if h : x = y then isTrue (by rw [h]) else isFalse (by intro e; cases e; exact h rfl)
+  | .error x, .error y => if h : x = y then isTrue (by rw [h]) else isFalse (by intro e; cases e; exact h rfl)
+  | .ok _, .error _ => isFalse (by intro e; cases e)
+  | .error _, .ok _ => isFalse (by intro e; cases e)
+
 /-! ## building the string rules from an operator table (`Lexer.__init__` + ply's ordering) -/
 
 /-- `re._special_chars_map`: characters `re.escape` prefixes with a backslash -/
@@ -166,24 +173,26 @@ structure NumMatch where
   frac : Option (List Char)
 deriving DecidableEq, Repr
 
-/-- the text NUMBER matches at `rest` (`pw`: the previous character is a word character).
+/-- the text NUMBER matches at `rest` (`pw`: the previous character is a word character); `fracPart`
+is the optional group `(\.?\d+)?` tried right after the greedy `\d+`.
 Greedy `\d+`; the optional group succeeds only as `.` digits followed by a boundary (with an empty
 `\.?` the inner `\d+` finds no digit left, with fewer digits taken the final `\b` falls between two
 word characters); without the group the final `\b` needs a non-word character (or the end). -/
+def fracPart (cc : CharCfg) (after : List Char) : Option (List Char) :=
+  match after with
+  | c :: a2 =>
+      if c = '.' then
+        let d2 := a2.takeWhile cc.isDigit
+        if !d2.isEmpty && boundaryAfter cc (a2.dropWhile cc.isDigit) then some d2 else none
+      else none
+  | [] => none
+
 def matchNumber (cc : CharCfg) (pw : Bool) (rest : List Char) : Option NumMatch :=
   if pw then none else
   let d1 := rest.takeWhile cc.isDigit
   if d1.isEmpty then none else
   let after := rest.dropWhile cc.isDigit
-  let frac : Option (List Char) :=
-    match after with
-    | c :: a2 =>
-        if c = '.' then
-          let d2 := a2.takeWhile cc.isDigit
-          if !d2.isEmpty && boundaryAfter cc (a2.dropWhile cc.isDigit) then some d2 else none
-        else none
-    | [] => none
-  match frac with
+  match fracPart cc after with
   | some d2 => some ⟨d1, some d2⟩
   | none => if boundaryAfter cc after then some ⟨d1, none⟩ else none
 
